@@ -11,6 +11,9 @@ CVC5_TIMEOUT_S = int(os.environ.get("PYVC_CVC5_S", "10"))
 CVC5 = "/usr/bin/cvc5"
 
 
+QUICK_MS = int(os.environ.get("PYVC_QUICK_MS", "2000"))
+
+
 def to_smt2(ob, goal=None, extra=(), hyps=None):
     s = z3.Solver()
     for h in (ob.hyps if hyps is None else hyps):
@@ -261,10 +264,81 @@ def _run_jobs(jobs, procs, hard_s):
     return results
 
 
+_ITEMS = []
+
+
+def _quick_worker(idxs, conn):
+    """phase A: many queries per process, each tried once, briefly, with everything in scope"""
+    for i in idxs:
+        name, ob, extra, sg, cover = _ITEMS[i]
+        t0 = time.time()
+        res = None
+        try:
+            s = z3.Solver()
+            s.set("timeout", 3000 if cover else QUICK_MS)
+            s.from_string(to_smt2(ob) if cover else to_smt2(ob, sg, extra))
+            r = s.check()
+            if cover:
+                res = {"name": name, "backend": "z3", "detail": "", "seconds": time.time() - t0,
+                       "result": "unsat" if r == z3.unsat else ("sat" if r == z3.sat else "unknown")}
+            elif r == z3.unsat:
+                res = {"name": name, "backend": "z3", "result": "unsat", "detail": "", "seconds": time.time() - t0}
+        except Exception:      # noqa
+            res = None
+        try:
+            conn.send((i, res))
+        except Exception:      # noqa
+            break
+    conn.close()
+
+
+def _quick_phase(n_items, procs):
+    """returns {index: result} for the queries decided in phase A"""
+    ctx = mp.get_context("fork")
+    chunks = [list(range(k, n_items, procs)) for k in range(procs)]
+    running = []
+    for ch in chunks:
+        if not ch:
+            continue
+        parent, child = ctx.Pipe(duplex=False)
+        p = ctx.Process(target=_quick_worker, args=(ch, child))
+        p.start()
+        child.close()
+        running.append((p, parent, time.time(), len(ch) * (QUICK_MS / 1000.0 + 1.0) + 30))
+    done = {}
+    while running:
+        still = []
+        for p, conn, t0, limit in running:
+            alive = p.is_alive()
+            try:
+                while conn.poll(0):
+                    i, res = conn.recv()
+                    if res is not None:
+                        done[i] = res
+            except EOFError:
+                alive = False
+            if alive and time.time() - t0 > limit:
+                p.terminate()
+                p.join(2)
+                if p.is_alive():
+                    p.kill()
+                alive = False
+            if alive:
+                still.append((p, conn, t0, limit))
+            else:
+                p.join(1)
+                conn.close()
+        running = still
+        if running:
+            time.sleep(0.02)
+    return done
+
+
 def discharge(obls, procs=None, z3_ms=None, use_cvc5=True):
+    global _ITEMS
     procs = procs or min(16, os.cpu_count() or 4)
     z3_ms = z3_ms or Z3_TIMEOUT_MS
-    jobs = []
+    items = []
     by_name = {}
     for ob in obls:
         # trivial cases without a solver call
@@ -273,12 +347,26 @@ def discharge(obls, procs=None, z3_ms=None, use_cvc5=True):
             ob.status, ob.backend, ob.seconds = "discharged", "simplifier", 0.0
             continue
         if ob.kind in ("cover", "cover-path"):
-            jobs.append((ob.name, to_smt2(ob), z3_ms, use_cvc5, True))
+            items.append((ob.name, ob, None, None, True))
             by_name[ob.name] = (ob, 1)
             continue
         parts = split_goal(ob.goal)
         for i, (extra, sg) in enumerate(parts):
             nm = ob.name if len(parts) == 1 else "%s#%d" % (ob.name, i)
+            items.append((nm, ob, extra, sg, False))
+            by_name[nm] = (ob, len(parts))
+        ob._parts = []
+    if items:
+        _ITEMS = items
+        quick = _quick_phase(len(items), procs)
+        results = [quick[i] for i in sorted(quick)]
+        jobs = []
+        for i, (nm, ob, extra, sg, cover) in enumerate(items):
+            if i in quick:
+                continue
+            if cover:
+                jobs.append((nm, to_smt2(ob), z3_ms, use_cvc5, True))
+                continue
             texts = []
             pr = prune_hyps(ob.hyps, sg, extra)
             if pr is not None:
@@ -288,11 +376,9 @@ def discharge(obls, procs=None, z3_ms=None, use_cvc5=True):
                 texts.append(to_smt2(ob, sg, extra, pg))      # fast path: without ghost-only facts
             texts.append(to_smt2(ob, sg, extra))
             jobs.append((nm, texts, z3_ms, use_cvc5, False))
-            by_name[nm] = (ob, len(parts))
-        ob._parts = []
-    if jobs:
+        _ITEMS = []
         hard = (z3_ms * 7) // 3000 + CVC5_TIMEOUT_S + 10
-        results = _run_jobs(jobs, procs, hard)
+        results += _run_jobs(jobs, procs, hard) if jobs else []
         # second chance for undecided queries: fewer at a time, three times the budget (a verdict must not flip
         # because the machine was busy)
         again = [j for j in jobs if not j[4] and any(r["name"] == j[0] and r["result"] == "unknown" for r in results)]
